@@ -31,8 +31,8 @@ META = dict(
 )
 
 DRIVER = "vlib.drivers.c38_driver"
-WORKLOADS = ("solve", "user", "edit")
-KIND = dict(solve="new", user="new", edit="edit")
+WORKLOADS = ("solve", "user", "edit", "copy")
+KIND = dict(solve="new", user="new", edit="edit", copy="new")
 JOB_TIMEOUT = 300
 
 
@@ -242,7 +242,7 @@ def _short(st):
 
 def _spec(root, name, wl, run1, retry=None, rerun=True, seed_archive=None, **kw):
     sp = dict(root=str(root), name=name, workload=wl, run1=run1, retry=retry, rerun=rerun, order=[1, 0], want_hits=False)
-    if wl == "edit":
+    if wl in ("edit", "copy"):
         sp["seed_archive"] = str(seed_archive)
     sp.update(kw)
     return sp
@@ -423,7 +423,7 @@ def replay(ck, rep):
         census_hits, ref_final, seed_archive = got
         oracle = Oracle(ck, ref_final, ref_final["solve"])
         sp = dict(w["spec"], root=str(root), name="replay")
-        if sp["workload"] == "edit":
+        if sp["workload"] in ("edit", "copy"):
             sp["seed_archive"] = str(seed_archive)
         case = dict(key=("replay",), wl=sp["workload"], faults=sp["run1"], retry=sp.get("retry"), spec=sp)
         ck.min_nontrivial = 1
